@@ -96,7 +96,60 @@ def program(rng, pid):
                 out.append(scalar())
         return out
 
-    shape = rng.choice(["line", "diamond", "loop", "loop", "fill", "partial"])
+    shape = rng.choice(["line", "diamond", "loop", "loop", "fill", "partial", "lostcopy"])
+    if shape == "lostcopy":
+        # a store at a symbolic index (which array_adaptive may have to IGNORE, depending on its parameters and on the cells
+        # the array has at that moment), then constant-index stores, an array copy (possibly a copy of the copy, or one copy
+        # per branch of a diamond), and a load at a symbolic or constant index FROM THE COPY
+        b1 = False
+        vars_[4]["t"] = "arr"
+        first = rng.choice(["init", "partial", "partial", "cells", "virgin", "virgin"])
+        st = []
+        v = rng.choice(ints)
+        if first == "init":
+            st.append(init(A))
+            s1, ix = sym_idx_setup(v)
+        else:
+            # only the first cells exist when the symbolic store arrives; it writes (also) cells that do not exist yet
+            k = rng.choice([0, 1])
+            if first == "virgin":       # the symbolic store is the very first write to the array (no cell exists)
+                k = -1
+            elif first == "partial":
+                st.append({"op": "ainit", "a": A, "es": es, "lb": le_const(0), "ub": le_const(k * es), "v": val()})
+            else:
+                for c in range(k + 1):
+                    st.append({"op": "astore", "a": A, "i": le_const(c * es), "v": val(), "es": es, "strong": 0})
+            lo = rng.randint(max(k, 0), 3)
+            hi = rng.randint(max(lo, k + 1), 3)
+            s1 = [{"op": "havoc", "x": v}, {"op": "assume", "c": {"e": le_var(v, -hi), "r": "le"}},
+                  {"op": "assume", "c": {"e": le_var(v, lo, -1), "r": "le"}}]
+            ix = le_var(v) if es == 1 else {"k": 0, "t": [[es, v]]}
+        st.append(init(B_))
+        st += s1
+        st.append({"op": "astore", "a": A, "i": ix, "v": le_const(rng.choice([-2, 2, 1])), "es": es, "strong": 0})
+        for _ in range(rng.randint(1 if first == "virgin" else 0, 2)):
+            st.append({"op": "astore", "a": A, "i": cidx(), "v": val(), "es": es, "strong": 0})
+        u = rng.choice([q for q in ints if q != v])
+        w2 = rng.choice([q for q in ints if q != u])
+        s2, ix2 = sym_idx_setup(w2)
+        rd = s2 + [{"op": "aload", "x": u, "a": B_, "i": ix2, "es": es}] if rng.random() < 0.7 else [{"op": "aload", "x": u, "a": B_, "i": cidx(), "es": es}]
+        copy = [{"op": "aassign", "a": B_, "b": A}]
+        if rng.random() < 0.3:      # copy of a copy
+            copy += [{"op": "aassign", "a": A, "b": B_}, {"op": "aassign", "a": B_, "b": A}]
+        if rng.random() < 0.5:
+            blk(st + copy + rd)
+        else:
+            e = blk(st)
+            g = hist.cst(rng, ints, rels=("le", "le", "lt", "eq", "ne"))
+            t = blk([{"op": "assume", "c": g}] + copy)
+            f = blk([{"op": "assume", "c": negate(g)}] + copy + ([{"op": "astore", "a": B_, "i": cidx(), "v": val(), "es": es, "strong": 0}] if rng.random() < 0.5 else []))
+            x = blk(rd)
+            edge(e, t)
+            edge(e, f)
+            edge(t, x)
+            edge(f, x)
+        return {"id": pid, "shape": "array-" + shape, "es": es, "vars": vars_, "kinds": ["int", "int", "int", "arr", "arr"], "nv": len(vars_),
+                "entry": 1, "exit": len(blocks), "blocks": blocks, "init": []}
     if shape == "partial":
         # A is only PARTLY initialised; further cells are written on one branch only, so the two values joined at x know
         # different cells; then a symbolic load (or a symbolic store followed by a load) covers a cell written on one side.
